@@ -1,7 +1,7 @@
 """C05 - volatility, range, channel and utility indicators match their definitions."""
 from .. import refprop
 
-KINDS = ["TR", "ATR", "STDEV", "BBANDS", "KC", "DONCHIAN", "HL", "HLA", "SUPERTREND"]
+KINDS = ["TR", "ATR", "STDEV", "BBANDS", "KC", "DONCHIAN", "HL", "HLA", "SUPERTREND", "STDEVTHRES", "COUNTER"]
 
 
 def run(ctx):
